@@ -247,6 +247,16 @@ _amend("C01", "text", "Decides nineteen structural", "Decides twenty-two structu
 _amend("C01", "text", "only past items without initializer. Does not decide", "only past items without initializer; the zero test of numeric literals knows the digits of each literal kind; a lone class declaration is dropped only when defining it has no side effects (one known finding, R01.22: `return a,b,void 0` at the end of a function keeps returning b — pinned by the suite). Does not decide")
 _amend("C09", "text", "(R09.1, R09.3-R09.11, DESIGN.md §4 C09):", "(R09.1, R09.3-R09.12, DESIGN.md §4 C09; R09.12 reports two known findings: an optional chain through a tagged template, pinned by the suite):")
 
+# seventh pass
+_amend("C01", "text", "(R01.1-R01.22,", "(R01.1-R01.24,")
+_amend("C01", "text", "Decides twenty-two structural", "Decides twenty-four structural")
+_amend("C03", "text", "(R03.1-R03.9 incl. R03.5c, DESIGN.md §4 C03):", "(R03.1-R03.10 incl. R03.5c-e, DESIGN.md §4 C03):")
+_amend("C03", "text", "Decides nine local clauses", "Decides ten local clauses")
+_amend("C10", "text", "(R10.1-R10.9,", "(R10.1-R10.10,")
+_amend("C10", "text", "Decides nine structural clauses", "Decides ten structural clauses")
+_amend("C19", "text", "(R19.1-R19.15,", "(R19.1-R19.16,")
+
+_amend("C17", "text", "(one obligation per entry, all discharged).", "(one obligation per entry, all discharged). In addition the HTML attribute writer is shown to take `boolean` from that table alone (R17.boolwriter: the guard of the `=value` write is built from len(value) and Traits&booleanAttr only).")
 
 NOT_APPLICABLE = {
  "C18": "DataURI/Mediatype correctness is about decoded byte values and length comparisons between encodings; no structural clause separates a right "
